@@ -2,6 +2,7 @@ package sctp
 
 import (
 	"fmt"
+	"os"
 	"sort"
 	"time"
 )
@@ -46,6 +47,8 @@ type c10Obs struct {
 	tlr                  bool
 }
 
+var c10Debug = os.Getenv("VERIF_TRACE") != ""
+
 func c10Observe(a *Association) c10Obs {
 	o := c10Obs{cwnd: a.CWND(), ssthresh: a.ssthresh, rwnd: a.RWND(), inFR: a.inFastRecovery, t3: a.stats.getNumT3Timeouts(), tlr: a.tlrActive}
 	q := a.inflightQueue
@@ -85,8 +88,14 @@ func c10Scenario(cfg c10Cfg, seq []int) *Scenario {
 				floor = cfg.minCwnd
 			}
 			nmsg := 0
+			// reference model of fast recovery, conservative: it is certainly over once the
+			// cumulative ack covers every TSN that had been sent when it began (the RFC's exit
+			// point is the highest outstanding TSN; an earlier exit point is also tolerated)
+			modelFR, modelExit := false, uint32(0)
+			gapRun := 0 // consecutive gap-only SACKs (same cumulative ack) the harness has injected
 			for step, ev := range seq {
 				before := c10Observe(a)
+				gapSack := false
 				name := c10Names[ev]
 				switch ev {
 				case evW1, evWP, evW3, evW12, evWP8:
@@ -137,6 +146,7 @@ func c10Scenario(cfg c10Cfg, seq []int) *Scenario {
 						if len(outstanding) > 1 {
 							last := outstanding[len(outstanding)-1]
 							gaps = []wGap{{uint16(last - cum), uint16(last - cum)}}
+							gapSack = true
 						}
 					case evSackHalfZero:
 						if len(outstanding) > 0 {
@@ -161,6 +171,9 @@ func c10Scenario(cfg c10Cfg, seq []int) *Scenario {
 				}
 				after := c10Observe(a)
 				where := fmt.Sprintf("step %d (%s) of %v", step, name, seqNames(seq))
+				if c10Debug {
+					m.Logf("c10 "+name, "cwnd=%d ssthresh=%d inFR=%v exit=%d cum=%d next=%d maxMiss=%d modelFR=%v", after.cwnd, after.ssthresh, after.inFR, a.fastRecoverExitPoint, a.cumulativeTSNAckPoint, a.myNextTSN, after.maxMiss, modelFR)
+				}
 				if after.cwnd < mtu {
 					m.Failf("cwnd.floor", "%s: cwnd %d fell below one MTU (%d)", where, after.cwnd, mtu)
 				}
@@ -179,7 +192,13 @@ func c10Scenario(cfg c10Cfg, seq []int) *Scenario {
 					if after.t3 == before.t3+1 && after.ssthresh != wantSS {
 						m.Failf("cwnd.t3", "%s: T3-rtx expired: ssthresh %d, want max(cwnd/2, 4 MTU) = %d", where, after.ssthresh, wantSS)
 					}
+				} else if before.maxMiss < 3 && after.maxMiss >= 3 && !before.inFR && modelFR {
+					// the implementation left fast recovery before the conservative point: tolerated
+					modelFR = false
+				} else if before.maxMiss < 3 && after.maxMiss >= 3 && before.inFR && !modelFR {
+					m.Failf("cwnd.fastrtx", "%s: loss signalled by three gap reports but the window was not cut (%d -> %d): fast recovery from an earlier episode never ended although everything sent before it has been acknowledged", where, before.cwnd, after.cwnd)
 				} else if before.maxMiss < 3 && after.maxMiss >= 3 && !before.inFR {
+					modelFR, modelExit = true, a.myNextTSN-1
 					// third miss indication: a loss signal; the window must be cut by the RFC 4960 7.2.3 rule
 					want := before.cwnd / 2
 					if want < 4*mtu {
@@ -193,6 +212,24 @@ func c10Scenario(cfg c10Cfg, seq []int) *Scenario {
 					}
 				} else if before.inFR && after.inFR && after.cwnd > before.cwnd {
 					m.Failf("cwnd.fr-growth", "%s: cwnd grew %d -> %d while in fast recovery", where, before.cwnd, after.cwnd)
+				}
+				switch {
+				case gapSack:
+					gapRun++
+				case ev == evW1 || ev == evWP || ev == evW3 || ev == evW12 || ev == evWP8 || ev == evW1x6:
+				default:
+					gapRun = 0
+				}
+				if gapSack && gapRun == 3 && !modelFR && before.inFR && after.inFR && after.t3 == before.t3 {
+					// the harness itself has reported the same TSNs missing three times
+					m.Failf("cwnd.fastrtx", "%s: third consecutive gap report for the same missing TSNs, yet no loss response (cwnd %d -> %d): the endpoint still believes it is in the fast recovery of an earlier episode although everything sent before that episode has been acknowledged", where, before.cwnd, after.cwnd)
+				}
+				if after.t3 > before.t3 {
+					modelFR = false
+					gapRun = 0
+				}
+				if modelFR && sna32GTE(a.cumulativeTSNAckPoint, modelExit) {
+					modelFR = false
 				}
 			}
 			m.Observe("%s", snapAssoc(a))
@@ -231,12 +268,25 @@ func propC10(j *Job) {
 			}
 		}
 	}
-	bases := [][]int{{}, {evW1, evSackAll}, {evW1, evSackAll, evW12, evTimer}, {evW12, evSackGap, evSackGap}}
+	bases := [][]int{{}, {evW1, evSackAll}, {evW1, evSackAll, evW12, evTimer}, {evW12, evSackGap, evSackGap},
+		// a timeout, then gap reports without cumulative progress (fast recovery raises the
+		// collapsed window), then the backed-off second expiry
+		{evW12, evTimer, evSackGap, evSackGap}}
+	// slow start to a large window, a first loss episode, its repair, and a second episode
+	grown := []int{}
+	for i := 0; i < 6; i++ {
+		grown = append(grown, evW12, evSackAll)
+	}
+	grown = append(grown, evW12, evSackGap, evSackGap, evSackGap, evW1, evSackAll, evW12, evSackGap, evSackGap)
+	bases = append(bases, grown)
 	for ci, cfg := range cfgs {
 		for bi, base := range bases {
 			d := depth - 1
 			if bi == 0 && (ci == 0 || j.Thorough()) {
 				d = depth
+			}
+			if bi == 5 {
+				d = depth - 2
 			}
 			seq := make([]int, d)
 			var rec func(i int)
